@@ -7,6 +7,8 @@ import (
 	"go/token"
 	"go/types"
 	"strings"
+
+	"golang.org/x/tools/go/cfg"
 )
 
 // C12 structural clauses beyond mode agreement.
@@ -259,4 +261,210 @@ func (c *Ctx) LookupConst(name string) types.Object {
 		return nil
 	}
 	return o
+}
+
+func init() {
+	register(&Rule{ID: "LEX.minus-delimiters", Floor: 5,
+		Doc: "in the lexer's token switch the test that decides whether a '-' stands alone (SYMBOL) or is a sign glued to what follows (NEGATIVE) accepts, besides whitespace and end of input, every rune that has its own case in that switch and can only START another token (brackets, quote, string, comment): whether two complete expressions are separated by whitespace or not does not change how a run of '-' is read",
+		Run: func(c *Ctx) []Obligation {
+			fn, fd, pkg := c.LookupFunc("parser/lexer.(*Lexer).readToken")
+			if fn == nil {
+				return []Obligation{anchorMissing("LEX.minus-delimiters", "lexer.(*Lexer).readToken")}
+			}
+			u := FuncUnit{fn, fd, pkg}
+			info := pkg.TypesInfo
+			// the outermost switch with a case '-'
+			var sw *ast.SwitchStmt
+			ast.Inspect(fd.Body, func(n ast.Node) bool {
+				s, ok := n.(*ast.SwitchStmt)
+				if !ok || sw != nil {
+					return true
+				}
+				for _, cl := range s.Body.List {
+					for _, e := range cl.(*ast.CaseClause).List {
+						if v, ok := constantInt64(info.Types[e]); ok && v == '-' {
+							sw = s
+						}
+					}
+				}
+				return sw == nil
+			})
+			if sw == nil {
+				return []Obligation{mkOb(c, "LEX.minus-delimiters", u, "token switch", fd, Undecided, "no switch with a case '-' found in readToken", false)}
+			}
+			var minus *ast.CaseClause
+			required := map[rune]ast.Node{}
+			for _, cl := range sw.Body.List {
+				cc := cl.(*ast.CaseClause)
+				var runes []rune
+				for _, e := range cc.List {
+					if v, ok := constantInt64(info.Types[e]); ok {
+						runes = append(runes, rune(v))
+					}
+				}
+				glue := false // the clause reads a symbol or number: such a rune continues a token after '-'
+				ast.Inspect(cc, func(n ast.Node) bool {
+					if ce, ok := n.(*ast.CallExpr); ok {
+						if f := Callee(info, ce); f != nil && (f.Name() == "readSymbol" || f.Name() == "readNumber") {
+							glue = true
+						}
+					}
+					return true
+				})
+				for _, r := range runes {
+					switch {
+					case r == '-':
+						minus = cc
+					case r == '#' || glue:
+					default:
+						required[r] = cc
+					}
+				}
+			}
+			if minus == nil {
+				return []Obligation{mkOb(c, "LEX.minus-delimiters", u, "case '-'", sw, Undecided, "no case '-'", false)}
+			}
+			// accepted set: first if-condition of the '-' clause
+			accepted := map[rune]bool{}
+			space := false
+			var cond ast.Expr
+			for _, st := range minus.Body {
+				if is, ok := st.(*ast.IfStmt); ok {
+					cond = is.Cond
+					break
+				}
+			}
+			if cond == nil {
+				return []Obligation{mkOb(c, "LEX.minus-delimiters", u, "case '-'", minus, Undecided, "the '-' case has no standalone test", false)}
+			}
+			ast.Inspect(cond, func(n ast.Node) bool {
+				switch x := n.(type) {
+				case *ast.BinaryExpr:
+					if x.Op == token.EQL {
+						if v, ok := constantInt64(info.Types[x.Y]); ok {
+							accepted[rune(v)] = true
+						}
+						if v, ok := constantInt64(info.Types[x.X]); ok {
+							accepted[rune(v)] = true
+						}
+					}
+				case *ast.CallExpr:
+					if stdFuncCalled(info, x, "unicode", "IsSpace") {
+						space = true
+					}
+					if (stdFuncCalled(info, x, "strings", "ContainsRune") || stdFuncCalled(info, x, "strings", "IndexRune")) && len(x.Args) == 2 {
+						if s, ok := constStringVal(info, x.Args[0]); ok {
+							for _, r := range s {
+								accepted[r] = true
+							}
+						}
+					}
+				}
+				return true
+			})
+			var obs []Obligation
+			if space {
+				obs = append(obs, mkOb(c, "LEX.minus-delimiters", u, "whitespace", cond, Proved, "the test accepts every unicode.IsSpace rune", false))
+			} else {
+				obs = append(obs, mkOb(c, "LEX.minus-delimiters", u, "whitespace", cond, Violated, "the standalone test does not use unicode.IsSpace", true))
+			}
+			var rs []rune
+			for r := range required {
+				rs = append(rs, r)
+			}
+			sortRunes(rs)
+			for _, r := range rs {
+				construct := fmt.Sprintf("delimiter %q", r)
+				if accepted[r] {
+					obs = append(obs, mkOb(c, "LEX.minus-delimiters", u, construct, cond, Proved, "a '-' in front of it stands alone", true))
+				} else {
+					obs = append(obs, mkOb(c, "LEX.minus-delimiters", u, construct, cond, Violated, fmt.Sprintf("%q starts a token of its own (it has a case in this switch) but a '-' in front of it is lexed as a sign: `(--%cx)` and `(-- %cx)` read differently", r, r, r), true))
+				}
+			}
+			return obs
+		}})
+}
+
+func sortRunes(rs []rune) {
+	for i := 1; i < len(rs); i++ {
+		for j := i; j > 0 && rs[j] < rs[j-1]; j-- {
+			rs[j], rs[j-1] = rs[j-1], rs[j]
+		}
+	}
+}
+
+func init() {
+	register(&Rule{ID: "LEX.overflow-checked", Floor: 2,
+		Doc: "a token that outgrew the scanner's window is refused, never split: every call of Scanner.EmitToken on accumulated text in the lexer is reached only over the false edge of Scanner.Overflow() (whose true edge returns an error token), and whitespace is skipped in a loop that runs until the scanner accepts no more (a run longer than the window is skipped in several pieces) — otherwise the part that fits is emitted and the rest is read as the next token (the tail of a long comment as code)",
+		Run: func(c *Ctx) []Obligation {
+			emit := c.LookupMethod("parser/token.Scanner.EmitToken")
+			overflow := c.LookupMethod("parser/token.Scanner.Overflow")
+			accSpace := c.LookupMethod("parser/token.Scanner.AcceptSeqSpace")
+			if emit == nil || accSpace == nil {
+				return []Obligation{anchorMissing("LEX.overflow-checked", "token.Scanner.EmitToken / AcceptSeqSpace")}
+			}
+			var obs []Obligation
+			for _, u := range c.Funcs(func(p string) bool { return rel(p) == "parser/lexer" }) {
+				info := u.Pkg.TypesInfo
+				fc := c.cfgOf(u, nil)
+				ord := &ordinal{}
+				for _, b := range fc.G.Blocks {
+					if !fc.Live(b) {
+						continue
+					}
+					for _, n := range b.Nodes {
+						for _, ce := range callsIn(n, false) {
+							fn := originOf(Callee(info, ce))
+							switch fn {
+							case emit:
+								construct := ord.next("EmitToken")
+								if u.Obj.Name() == "charToken" {
+									obs = append(obs, mkOb(c, "LEX.overflow-checked", u, construct, ce, Proved, "single-rune token (brackets, quote): emitted right after one accepted rune, it cannot fill the window", false))
+									continue
+								}
+								if overflow == nil {
+									obs = append(obs, mkOb(c, "LEX.overflow-checked", u, construct, ce, Violated, "the scanner has no Overflow test: a token longer than the window is emitted in pieces", true))
+									continue
+								}
+								cls := func(e ast.Expr) (string, bool) {
+									if x, ok := ast.Unparen(e).(*ast.CallExpr); ok && originOf(Callee(info, x)) == overflow {
+										return "overflow", false
+									}
+									return "", false
+								}
+								cut := fc.edgesEntailing(cls, func(v map[string]bool) bool { return v["$has:overflow"] && !v["overflow"] })
+								okRet := true
+								for _, e := range fc.edgesEntailing(cls, func(v map[string]bool) bool { return v["$has:overflow"] && v["overflow"] }) {
+									if !fc.edgeReturns(e, nil) {
+										okRet = false
+									}
+								}
+								if len(cut) > 0 && okRet && !fc.reachableAvoiding(b, cut) {
+									obs = append(obs, mkOb(c, "LEX.overflow-checked", u, construct, ce, Proved, "reached only when Scanner.Overflow() is false; the true edge returns an error token", true))
+								} else {
+									obs = append(obs, mkOb(c, "LEX.overflow-checked", u, construct, ce, Violated, "accumulated text is emitted as a token without asking whether it filled the scanner's window: a comment, symbol or number longer than the window is split and its tail read as further tokens", true))
+								}
+							case accSpace:
+								construct := ord.next("AcceptSeqSpace")
+								// must sit in the condition of a loop: its block lies on a CFG cycle
+								inLoop := false
+								for _, comp := range fc.cyclicSCCs(func(*cfg.Block) bool { return false }) {
+									for _, cb := range comp {
+										if cb == b {
+											inLoop = true
+										}
+									}
+								}
+								if inLoop {
+									obs = append(obs, mkOb(c, "LEX.overflow-checked", u, construct, ce, Proved, "whitespace is skipped in a loop until nothing more is accepted", true))
+								} else {
+									obs = append(obs, mkOb(c, "LEX.overflow-checked", u, construct, ce, Violated, "whitespace is skipped once: a run longer than the scanner's window leaves the next token starting on a space and the file is refused", true))
+								}
+							}
+						}
+					}
+				}
+			}
+			return obs
+		}})
 }
